@@ -139,6 +139,12 @@ impl<'a> Eval<'a> {
 
     fn quant(&self, exists: bool, vars: &[&fol::Variable], body: &fol::Formula, env: &mut Env, w: World) -> bool {
         if vars.is_empty() { return self.sat(body, env, w); }
+        // forall distributes over conjunction, exists over disjunction (at both worlds)
+        match body {
+            fol::Formula::BinaryFormula { connective: fol::BinaryConnective::Conjunction, lhs, rhs } if !exists => return self.quant(false, vars, lhs, env, w) && self.quant(false, vars, rhs, env, w),
+            fol::Formula::BinaryFormula { connective: fol::BinaryConnective::Disjunction, lhs, rhs } if exists => return self.quant(true, vars, lhs, env, w) || self.quant(true, vars, rhs, env, w),
+            _ => {}
+        }
         let mut conj: Vec<&fol::Formula> = Vec::new();
         if exists { conjuncts(body, &mut conj); } else {
             match body {
@@ -174,6 +180,48 @@ impl<'a> Eval<'a> {
         let decided_false = |this: &Self, i: usize, bound: &Vec<bool>, env: &mut Env| -> bool {
             conj.iter().zip(deps).any(|(c, d)| d.contains(&i) && d.iter().all(|j| bound[*j]) && !this.sat(c, env, pw))
         };
+        // variables that are arguments of an atom among the conjuncts: only the tuples in the atom's extent (at world pw)
+        // can make the existential body true / the universal antecedent true, so these are enumerated instead of the window
+        for (c, d) in conj.iter().zip(deps) {
+            let a = match c { fol::Formula::AtomicFormula(fol::AtomicFormula::Atom(a)) => a, _ => continue };
+            if !d.iter().any(|j| !bound[*j]) { continue; }
+            // every argument: an unbound block variable itself, or a term without unbound block variables
+            let mut shape: Vec<Result<usize, &fol::GeneralTerm>> = Vec::new();
+            let mut ok = true;
+            for t in &a.terms {
+                if let Some(j) = (0..vars.len()).find(|j| !bound[*j] && is_var(t, vars[*j])) { shape.push(Ok(j)); continue; }
+                let mut tv = Vec::new();
+                term_vars(t, &mut tv);
+                if unbound.iter().any(|u| tv.iter().any(|(n, s)| *n == u.name && *s == u.sort)) { ok = false; break; }
+                shape.push(Err(t));
+            }
+            if !ok { continue; }
+            let fixed: Vec<Option<Val>> = shape.iter().map(|x| match x { Err(t) => self.gen_term(t, env), Ok(_) => None }).collect();
+            if shape.iter().zip(&fixed).any(|(x, f)| x.is_err() && f.is_none()) { return !exists; } // an argument without value: the atom is false
+            let extent = match pw { World::Here => &self.ht.here, World::There => &self.ht.there };
+            let lo = (a.predicate_symbol.clone(), Vec::new());
+            let tuples: Vec<&Vec<Val>> = extent.range(lo..).take_while(|(p, _)| *p == a.predicate_symbol).filter(|(_, args)| args.len() == shape.len()).map(|(_, args)| args).collect();
+            'tuple: for args in tuples {
+                let mut newly: Vec<usize> = Vec::new();
+                let mut assigned: Vec<(usize, &Val)> = Vec::new();
+                for (k, x) in shape.iter().enumerate() {
+                    match x {
+                        Err(_) => { if fixed[k].as_ref() != Some(&args[k]) { continue 'tuple; } }
+                        Ok(j) => {
+                            if let Some((_, prev)) = assigned.iter().find(|(jj, _)| jj == j) { if **prev != args[k] { continue 'tuple; } continue; }
+                            if !val_has_sort(&args[k], sort_of(vars[*j].sort)) { continue 'tuple; }
+                            assigned.push((*j, &args[k]));
+                        }
+                    }
+                }
+                for (j, v) in &assigned { env.push(&vars[*j].name, sort_of(vars[*j].sort), (*v).clone()); bound[*j] = true; newly.push(*j); }
+                let dec = newly.iter().any(|j| decided_false(self, *j, bound, env));
+                let r = if dec { !exists } else { self.quant_rec(exists, vars, bound, body, conj, deps, env, w) };
+                for j in newly.iter().rev() { bound[*j] = false; env.pop(); }
+                if r == exists { return exists; }
+            }
+            return !exists;
+        }
         // a variable fixed by an equation
         for i in 0..vars.len() {
             if bound[i] { continue; }
